@@ -163,9 +163,9 @@ theorem onRequest_switcher (s : Sys) (i : Bool) (w : Ag) (h : IsSwitcher s i w) 
   cases i
   · simp only [Bool.false_eq_true, if_false] at h
     have : s.tie w ≥ s.tie w.other := UInt64.le_of_lt h
-    simp [onRequest, this]
+    simp [onRequest, Nice.Gen.RoleConflict.switches, this]
   · simp only [if_true] at h
-    simp [onRequest, h]
+    simp [onRequest, Nice.Gen.RoleConflict.switches, h]
 
 /-- the receiver decision when the keeper gets a request carrying role i from the switcher -/
 theorem onRequest_keeper (s : Sys) (i : Bool) (w : Ag) (h : IsSwitcher s i w) :
@@ -177,12 +177,12 @@ theorem onRequest_keeper (s : Sys) (i : Bool) (w : Ag) (h : IsSwitcher s i w) :
       intro hge
       rw [ge_iff_le, UInt64.le_iff_toNat_le] at hge
       rw [gt_iff_lt, UInt64.lt_iff_toNat_lt] at h; omega
-    simp [onRequest, this]
+    simp [onRequest, Nice.Gen.RoleConflict.switches, this]
   · simp only [if_true] at h
     have : ¬ (s.tie w.other < s.tie w) := by
       intro hlt
       rw [UInt64.lt_iff_toNat_lt] at hlt h; omega
-    simp [onRequest, this]
+    simp [onRequest, Nice.Gen.RoleConflict.switches, this]
 
 /-- what happens when a request of the keeper reaches the switcher -/
 theorem decision_at_switcher (i : Bool) (w : Ag) (s : Sys) (h : InvE i w s) (m : Msg)
